@@ -27,14 +27,16 @@ def _assigns(fn, name):
 def new_group_block(prog, rep, rule):
     f = prog.fn("terms.terms.GroupSpecificTerm.eval_new_data")
     c = cfg_of(f)
-    ji = _assigns(f, "Ji")
-    first = [s for s in ji if unparse(s.value) == "self.factor.eval_new_data(data)"]
+    data = f.params[1]
+    first = [s for s in walk_local(f.node) if isinstance(s, ast.Assign) and len(s.targets) == 1 and isinstance(s.targets[0], ast.Name)
+             and unparse(s.value) == f"self.factor.eval_new_data({data})"]
     obl(rep, f, first[0] if first else f.node, rule, len(first) == 1, "Ji is the factor's indicator matrix evaluated on the new frame")
-    masks = [s for s in walk_local(f.node) if isinstance(s, ast.Assign) and unparse(s.value) in ("~Ji.any(axis=1)", "Ji.sum(axis=1) == 0", "~Ji.any(1)")]
+    J = first[0].targets[0].id if len(first) == 1 else "Ji"
+    masks = [s for s in walk_local(f.node) if isinstance(s, ast.Assign) and unparse(s.value) in (f"~{J}.any(axis=1)", f"{J}.sum(axis=1) == 0", f"~{J}.any(1)")]
     ok = len(masks) == 1
     mv = unparse(masks[0].targets[0]) if ok else "all_zeros"
     obl(rep, f, masks[0] if masks else f.node, rule, ok, "a row with all-zero indicators marks an unseen group (row-wise test, axis=1)", "",
-        "the unseen-group mask is not `~Ji.any(axis=1)`")
+        f"the unseen-group mask is not `~{J}.any(axis=1)`")
     conds = [i for i in walk_local(f.node) if isinstance(i, ast.If) and unparse(i.test) in (f"{mv}.any()", f"np.any({mv})", f"{mv}.sum() > 0")]
     ok = len(conds) == 1
     obl(rep, f, conds[0] if conds else f.node, rule, ok, "the extra block is added only when some row belongs to an unseen group", "",
@@ -42,22 +44,40 @@ def new_group_block(prog, rep, rule):
     if not ok:
         return
     body = conds[0].body
-    stack = [s for s in body if isinstance(s, ast.Assign) and unparse(s.targets[0]) == "Ji" and isinstance(s.value, ast.Call)
+    local_defs = {}
+    for s_ in body:
+        if isinstance(s_, ast.Assign) and len(s_.targets) == 1 and isinstance(s_.targets[0], ast.Name):
+            local_defs.setdefault(s_.targets[0].id, []).append(s_.value)
+    stack = [s for s in body if isinstance(s, ast.Assign) and unparse(s.targets[0]) == J and isinstance(s.value, ast.Call)
              and dotted(s.value.func) in ("np.column_stack", "np.hstack")]
     ok = len(stack) == 1
+    indicator_form = False
     if ok:
         arg = stack[0].value.args[0]
-        ok = isinstance(arg, (ast.List, ast.Tuple)) and len(arg.elts) == 2 and unparse(arg.elts[0]) == "Ji" \
-            and isinstance(arg.elts[1], ast.Call) and dotted(arg.elts[1].func) == "np.zeros" \
-            and unparse(arg.elts[1].args[0]) in ("(Ji.shape[0], 1)", "(len(Ji), 1)")
+        ok = isinstance(arg, (ast.List, ast.Tuple)) and len(arg.elts) == 2 and unparse(arg.elts[0]) == J
+        if ok:
+            second = arg.elts[1]
+            if isinstance(second, ast.Name) and len(local_defs.get(second.id, [])) == 1:
+                second = local_defs[second.id][0]
+            zeros = isinstance(second, ast.Call) and dotted(second.func) == "np.zeros" and unparse(second.args[0]) in (f"({J}.shape[0], 1)", f"(len({J}), 1)")
+            txt = unparse(second)
+            import re as _re
+            indicator_form = bool(_re.fullmatch(_re.escape(mv) + r"\.astype\((?:'int'|int|np\.int64|'int64'|np\.int_)\)(?:\[:, (?:np\.newaxis|None)\]|\.reshape\(-1, 1\))", txt)) \
+                or bool(_re.fullmatch(_re.escape(mv) + r"\[:, (?:np\.newaxis|None)\]\.astype\((?:'int'|int|np\.int64|'int64'|np\.int_)\)", txt))
+            ok = zeros or indicator_form
     obl(rep, f, stack[0] if stack else conds[0], rule, ok, "one zero column is stacked AFTER the existing indicator columns (trailing block, fresh array)",
         "", "the new-group column is not appended as the last column of a fresh array: existing blocks would shift")
-    sets = [s for s in body if isinstance(s, ast.Assign) and isinstance(s.targets[0], ast.Subscript) and unparse(s.targets[0].value) == "Ji"]
-    ok = len(sets) == 1 and unparse(sets[0].targets[0].slice) in (f"({mv}, -1)", f"{mv}, -1") and unparse(sets[0].value) == "1"
-    if ok and stack:
-        ok = body.index(sets[0]) > body.index(stack[0])
-    obl(rep, f, sets[0] if sets else conds[0], rule, ok, f"the new column is set to 1 exactly on the unseen-group rows (`Ji[{mv}, -1] = 1`, same mask as the test)",
-        "", "the new-group column is not set to 1 on exactly the rows selected by the unseen-group mask")
+    sets = [s for s in body if isinstance(s, ast.Assign) and isinstance(s.targets[0], ast.Subscript) and unparse(s.targets[0].value) == J]
+    if indicator_form:
+        ok = not sets
+        why = "the appended column IS the unseen-group mask as integers"
+    else:
+        ok = len(sets) == 1 and unparse(sets[0].targets[0].slice) in (f"({mv}, -1)", f"{mv}, -1") and unparse(sets[0].value) == "1"
+        if ok and stack:
+            ok = body.index(sets[0]) > body.index(stack[0])
+        why = ""
+    obl(rep, f, sets[0] if sets else conds[0], rule, ok, f"the new column is set to 1 exactly on the unseen-group rows (`{J}[{mv}, -1] = 1`, same mask as the test)",
+        why, "the new-group column is not set to 1 on exactly the rows selected by the unseen-group mask")
     # the product is built after the block was added, factor first
     kr = [x for x in calls_in(f.node) if dotted(x.func) == "linalg.khatri_rao"]
     ok = len(kr) == 1 and c.dominates(c.node_of(conds[0]), c.node_of(kr[0]))
